@@ -94,17 +94,20 @@ func (p *principalInstance) doIntentRequestChecks(i Intent) error {
 
 	if !p.targetConnected {
 		logrus.Info("principal: not connected to target")
+		// The denial is written once, below: a rejected intent also makes the
+		// target connection setup fail.
+		var checkErr error
 		checkIntentWithCert := func(cert *certs.Certificate) error {
 			p.targetCert = cert
-			err := p.checkIntent(i, cert)
-			if err != nil {
-				WriteIntentDenied(p.delegateConn, err.Error())
-			}
-			return err
+			checkErr = p.checkIntent(i, cert)
+			return checkErr
 		}
 		tc, err := p.setUpTargetConn(targURL, checkIntentWithCert)
 		if err != nil {
 			logrus.Info("principal: error setting up target connection")
+			if checkErr != nil {
+				return WriteIntentDenied(p.delegateConn, checkErr.Error())
+			}
 			return WriteIntentDenied(p.delegateConn, fmt.Sprintf("principal: target setup failed: %s", err))
 		}
 		p.targetConn = tc
